@@ -95,9 +95,12 @@ def _locked(path):
 
 
 def _prune(prefix, keep):
+    """bound the cache: drop the oldest builds, but never one that was used within the last hour (other
+    checks - or a mutant trial with VERIF_REPO - may be running from it)"""
     ds = sorted(glob.glob(os.path.join(CACHE, prefix + '-*')), key=lambda d: os.path.getmtime(d))
+    now = time.time()
     for d in ds[:-keep] if len(ds) > keep else []:
-        if os.path.isdir(d):
+        if os.path.isdir(d) and now - os.path.getmtime(d) > 3600:
             shutil.rmtree(d, ignore_errors=True)
 
 
@@ -141,7 +144,7 @@ def ensure_lib(flavour):
             os.unlink(o)
         with open(os.path.join(d, 'OK'), 'w') as f:
             f.write('%.1f\n' % (time.time() - t0))
-        _prune('lib-' + flavour, 3)
+        _prune('lib-' + flavour, 6)
         return d
     finally:
         lock.close()
@@ -192,7 +195,7 @@ def ensure(flavour, drivers=('vdrv',)):
             os.unlink(o)
         with open(os.path.join(d, 'OK'), 'w') as f:
             f.write('%.1f\n' % (time.time() - t0))
-        _prune('drv-' + flavour, 3)
+        _prune('drv-' + flavour, 6)
         return d, libd
     finally:
         lock.close()
